@@ -68,6 +68,13 @@ def transposeCsrJ (j : Json) : Except String Json := do
   let out := transposeCsr a
   pure <| Json.mkObj [("abs", absJ out.rows out.cols out.abs), ("r", rowsJ out.r)]
 
+def matmulCsrJ (j : Json) : Except String Json := do
+  let a ← csrOf j "a"
+  let b ← csrOf j "b"
+  let s ← ciOf (← j.getObjVal? "scale")
+  let out := matmulCsr a b s
+  pure <| Json.mkObj [("abs", absJ out.rows out.cols out.abs), ("r", rowsJ out.r)]
+
 def kronCsrJ (j : Json) : Except String Json := do
   let a ← csrOf j "a"
   let b ← csrOf j "b"
